@@ -1,8 +1,21 @@
-"""Vec / slice / iterator transfer functions (std), template lists for crate iterators, and the
-user contracts of the lax Functor / Optic traits."""
+"""Vec / slice / iterator transfer functions (std), list terms for sequences of records,
+crate-iterator templates, loop summaries for push/extend loops and in-place element maps.
+
+Sequences are symbolic terms (values.py).  Extra term constructors used here:
+  ('el', L, fld)        the field `fld` (a sequence) of an arbitrary element of the record list L
+  ('lmap', L, body)     the list obtained from L by replacing every element with `body` (a frozen
+                        record value over the placeholders ('el', L, .) / ('elem', L))
+  ('single', x)         one-element list (x frozen)
+  ('flat', L, seq)      concatenation over the elements of L of the sequence `seq` (over placeholders)
+  ('emap', T, poly)     element-wise scalar map of T (poly over the placeholder atom ('elem', T))
+  ('zip', A, B), ('enum', A), ('filtermap', T, key), ('list', key)
+"""
 from poly import Poly, as_poly, show_poly
 from values import *
 import inv
+
+LIST_ELEM = {}      # leaf term -> element kind ('hyperedge')
+LABEL_LEAVES = set()
 
 
 def deref(I, st, v):
@@ -12,7 +25,102 @@ def deref(I, st, v):
 
 
 # ---------------------------------------------------------------------------------------------
-# Template lists: sequences of records described by one arbitrary element
+# freeze / thaw of element templates
+
+def freeze(v):
+    if isinstance(v, VRec):
+        return ("rec", v.ty, tuple((k, freeze(x)) for k, x in sorted(v.f.items())))
+    if isinstance(v, VSeq):
+        return ("seq", v.t)
+    if isinstance(v, VNat):
+        return ("nat", v.p)
+    if isinstance(v, VTup):
+        return ("tup", tuple(freeze(x) for x in v.items))
+    if isinstance(v, VUser):
+        return ("user", v.key)
+    if isinstance(v, VUnit):
+        return ("unit",)
+    if isinstance(v, VEnum):
+        return ("enum", v.enum, v.variant, tuple(freeze(x) for x in v.payload))
+    if isinstance(v, VBool):
+        return ("bool", v.f)
+    if isinstance(v, VMutRef):
+        return ("mref", v.place)
+    return ("top", repr(v)[:60])
+
+
+def thaw(f):
+    k = f[0]
+    if k == "rec":
+        return VRec(f[1], {n: thaw(x) for n, x in f[2]})
+    if k == "seq":
+        return VSeq(f[1])
+    if k == "nat":
+        return VNat(f[1])
+    if k == "tup":
+        return VTup([thaw(x) for x in f[1]])
+    if k == "user":
+        return VUser(f[1])
+    if k == "unit":
+        return UNIT
+    if k == "enum":
+        return VEnum(f[1], f[2], [thaw(x) for x in f[3]])
+    if k == "bool":
+        return VBool(f[1])
+    if k == "mref":
+        return VMutRef(f[1])
+    return VTop("thaw " + str(f[1:]))
+
+
+def explicit_elems(t):
+    """Element values of an explicitly enumerated list (concat of single/fill(_,1)), else None."""
+    parts = list(t[1:]) if t[0] == "concat" else [t]
+    out = []
+    for p in parts:
+        if p[0] == "single":
+            out.append(thaw(p[1]))
+        elif p[0] == "fill" and as_poly(p[2]) == Poly.const(1):
+            out.append(VNat(as_poly(p[1])))
+        else:
+            return None
+    return out
+
+
+def hyperedge_template(L):
+    return VRec(inv.LEDGE, {"sources": VSeq(("el", L, "sources")), "targets": VSeq(("el", L, "targets"))})
+
+
+def placeholder(st, t, kind="nat"):
+    """The arbitrary element of a scalar / label sequence."""
+    if kind == "label":
+        return VUser(("elem", t))
+    a = Poly.atom(("elem", t))
+    for b in ubs(st, t):
+        st.add_ge(b - a - 1)
+    return VNat(a)
+
+
+def label_of(t):
+    """Is t a sequence of labels (user values) rather than naturals?"""
+    if t in LABEL_LEAVES:
+        return True
+    if t[0] == "gather":
+        return label_of(t[1])
+    if t[0] == "concat":
+        return any(label_of(p) for p in t[1:])
+    if t[0] in ("scatter", "slice", "sa"):
+        return label_of(t[1])
+    if t[0] in ("Fmap", "LFobj", "umap"):
+        return True
+    if t[0] == "flat":
+        return label_of(t[2])
+    if t[0] == "fill":
+        return any(isinstance(a, tuple) and a and a[0] == "lbl" for a in as_poly(t[1]).atoms())
+    return False
+
+
+# ---------------------------------------------------------------------------------------------
+# Template lists for crate iterators (IndexedCoproduct iterators)
 
 def templates(I):
     if not hasattr(I, "_templates"):
@@ -40,7 +148,6 @@ def as_list(I, st, fr, e, v):
     if nxt is not None:
         return list_of_iterator(I, st, fr, e, v, nxt)
     if isinstance(v, VRec) and v.ty == inv.IC:
-        # IntoIterator for IndexedCoproduct is a crate function
         for p, f in I.facts.fns.items():
             if f["name"] == "into_iter" and "IntoIterator for indexed_coproduct" in p:
                 want = "FiniteFunction" if isinstance(v.f["values"], VRec) and v.f["values"].ty == inv.FF else "SemifiniteFunction"
@@ -53,7 +160,9 @@ def as_list(I, st, fr, e, v):
     if isinstance(v, VTop):
         return VSeq(leaf(("top-iter", v.why)))
     if isinstance(v, VEnum) and v.variant in ("Some", "None"):
-        return VSeq(EMPTY if v.variant == "None" else ("single", v.payload[0]))
+        return VSeq(EMPTY if v.variant == "None" else ("single", freeze(v.payload[0])))
+    if isinstance(v, VUser):
+        return VSeq(leaf(("user-iter", v.key)))
     raise NotImplementedError("as_list of " + repr(v)[:80])
 
 
@@ -70,11 +179,9 @@ def list_of_iterator(I, st, fr, e, it, nxt):
         j = Poly.atom(("iterpos", key))
         s = st.copy()
         it2 = it
-        facts = []
         if "index" in it.f:
             it2 = it.with_field("index", VNat(j))
             s.add_ge(j - it.f["index"].p)
-            facts.append(("ge", j - it.f["index"].p))
         root = (fr.id, ("itertmp", id(e)))
         s.env[root] = it2
         outs = I.call_fn(nxt, [VMutRef((root, ()))], s, fr, e)
@@ -85,9 +192,8 @@ def list_of_iterator(I, st, fr, e, it, nxt):
         if len(elems) == 0:
             return VSeq(EMPTY)
         if len(elems) != 1:
-            raise NotImplementedError(f"iterator next: {len(elems)} Some-paths; outs={[(repr(v)[:200], c) for (_, v, c) in outs]}")
+            raise NotImplementedError(f"iterator next: {len(elems)} Some-paths")
         s2, elem = elems[0]
-        # facts established on the Some path (about the position atom) are part of the template
         new_facts = s2.lin.facts[len(st.lin.facts):]
         tp[term] = {"elem": elem, "facts": list(new_facts), "bnd": {k: v for k, v in s2.bnd.items() if k not in st.bnd}}
     if remaining is not None:
@@ -99,8 +205,11 @@ def template_of(I, term):
     return templates(I).get(term)
 
 
-def seq_elem(I, st, v, ip):
-    """An arbitrary / indexed element of a sequence value."""
+# ---------------------------------------------------------------------------------------------
+# elements
+
+def seq_elem(I, st, v, ip=None, label=False):
+    """An arbitrary (ip None) or indexed element of a sequence value."""
     t = v.t
     tpl = template_of(I, t)
     if tpl is not None:
@@ -110,74 +219,194 @@ def seq_elem(I, st, v, ip):
             for b in bs:
                 st.add_bound(term, b)
         return tpl["elem"]
-    return elem_of_term(I, st, t, ip)
-
-
-def elem_of_term(I, st, t, ip):
-    """Scalar element abstraction: a natural number atom bounded by the sequence's bounds."""
+    kind = LIST_ELEM.get(t) if t[0] == "v" else None
+    if isinstance(kind, tuple) and kind[0] == "struct":
+        nm = "elem(" + str(t[1]) + ")" if ip is None else "get(" + str(t[1]) + "," + show_poly(ip) + ")"
+        return inv.symbolic(I, st, kind[1], nm, wf=True)
+    if t[0] == "v" and LIST_ELEM.get(t) == "hyperedge":
+        if ip is not None:
+            return VRec(inv.LEDGE, {"sources": VSeq(("at", t, "sources", ip)), "targets": VSeq(("at", t, "targets", ip))})
+        return hyperedge_template(t)
+    if t[0] == "lmap":
+        return thaw(t[2])
+    if t[0] == "single":
+        return thaw(t[1])
+    if t[0] == "zip":
+        return VTup([seq_elem(I, st, VSeq(t[1])), seq_elem(I, st, VSeq(t[2]))])
+    if t[0] == "enum":
+        ix = Poly.atom(("enumidx", t[1]))
+        st.add_ge(t_len(t[1]) - ix - 1)
+        return VTup([VNat(ix), seq_elem(I, st, VSeq(t[1]))])
+    if t[0] == "upd" and ip is not None:
+        base_elem = seq_elem(I, st, VSeq(t[1]), ip)
+        i0 = as_poly(t[2])
+        path = t[3]
+        newv = thaw(t[4])
+        if st.eq(ip, i0):
+            return _set_path(base_elem, path, newv) if isinstance(base_elem, (VRec, VTup)) else base_elem
+        if st.ne(ip, i0):
+            return base_elem
+        # possibly the updated element: the updated field is unknown (either version)
+        if isinstance(base_elem, VRec) and len(path) == 1 and path[0] in base_elem.f:
+            lf = leaf(("maybe-updated", t, ip))
+            for b in ubs(st, newv.t if isinstance(newv, VSeq) else EMPTY):
+                if isinstance(base_elem.f[path[0]], VSeq) and prove_bound(st, base_elem.f[path[0]].t, b):
+                    st.add_bound(lf, b)
+            return base_elem.with_field(path[0], VSeq(lf))
+        return base_elem
+    is_lbl = label or label_of(t)
     if ip is None:
-        a = Poly.atom(("elem", t))
-    else:
-        a = Poly.atom(("get", t, ip))
+        return placeholder(st, t, "label" if is_lbl else "nat")
+    if is_lbl:
+        return VUser(("get", t, ip))
+    a = Poly.atom(("get", t, ip))
     for b in ubs(st, t):
         st.add_ge(b - a - 1)
     return VNat(a)
 
 
 def seq_update(I, st, v, ip, rest, val):
+    """v[ip].rest := val for a sequence of records."""
     v = deref(I, st, v)
     if isinstance(v, VSeq):
-        return VSeq(("upd", v.t, ip if ip is not None else Poly.const(0), repr(rest), repr(val)[:40]))
+        return VSeq(("upd", v.t, ip if ip is not None else Poly.const(0), tuple(str(r) for r in rest), freeze(val)))
     return VTop("update")
 
 
 def index_expr(I, st, fr, e, base, ix):
     base = deref(I, st, base)
+    ix = deref(I, st, ix)
     if isinstance(base, VSeq):
         if isinstance(ix, VNat):
             I.pre_ge(st, fr, e, "index", t_len(base.t), ix.p + 1, f"{show_poly(ix.p)} < len({show_term(base.t)})")
+            # indexing by the arbitrary element of another sequence: arbitrary element of the gather
+            at = ix.p.atoms()
+            if len(ix.p.t) == 1 and len(at) == 1:
+                a = next(iter(at))
+                if isinstance(a, tuple) and a[0] == "elem" and ix.p == Poly.atom(a):
+                    return [(st, elem_of_gather(I, st, base.t, a[1], e), None)]
             tyd = I.facts.ty(e["ty"])
-            if tyd["k"] in ("uint",) or tyd["s"].endswith("NodeId") or tyd["s"].endswith("::I"):
-                return [(st, elem_of_term(I, st, base.t, ix.p), None)]
-            tpl = template_of(I, base.t)
-            if tpl is not None:
-                return [(st, seq_elem(I, st, base, ix.p), None)]
-            return [(st, VTop("element"), None)]
+            return [(st, seq_elem(I, st, base, ix.p, label_of(base.t) or tyd["k"] == "param"), None)]
         if isinstance(ix, (VRange, VRec)):
             import prims
             lo, hi = prims._range(I, st, base.t, ix)
             n = t_len(base.t)
             I.pre_ge(st, fr, e, "slice", hi, lo, f"{show_poly(lo)} <= {show_poly(hi)}")
             I.pre_ge(st, fr, e, "slice", n, hi, f"{show_poly(hi)} <= len({show_term(base.t)})")
-            if not lo.t and st.eq(hi, n):
-                return [(st, base, None)]
-            return [(st, VSeq(prims.mk_slice(st, base.t, lo, hi)), None)]
+            return [(st, VSeq(mk_slice(st, base.t, lo, hi)), None)]
     if isinstance(base, VTop):
         return [(st, VTop("index"), None)]
-    raise NotImplementedError("index of " + repr(base)[:60])
+    raise NotImplementedError("index of " + repr(base)[:60] + " by " + repr(ix)[:40])
+
+
+def elem_of_gather(I, st, base, idx, e=None):
+    """Placeholder for base[idx[i]] (i arbitrary): the arbitrary element of gather(base, idx)."""
+    g = ("gather", base, idx)
+    tyd = I.facts.ty(e["ty"]) if e is not None else None
+    if label_of(base) or (tyd is not None and tyd["k"] == "param"):
+        return VUser(("elem", g))
+    if tyd is not None and tyd["k"] == "adt" and tyd["path"] == "std::option::Option":
+        return VUser(("elem", g))
+    a = Poly.atom(("elem", g))
+    for b in ubs(st, base):
+        st.add_ge(b - a - 1)
+    return VNat(a)
+
+
+def mk_slice(st, x, lo, hi):
+    lo, hi = as_poly(lo), as_poly(hi)
+    if not lo.t and st.eq(hi, t_len(x)):
+        return x
+    if x[0] == "arange":
+        return ("arange", x[1] + lo, x[1] + hi)
+    if x[0] == "concat":
+        off = Poly.const(0)
+        parts = list(x[1:])
+        i = 0
+        while i < len(parts) and not st.eq(off, lo):
+            off = off + t_len(parts[i])
+            i += 1
+        if st.eq(off, lo):
+            acc = []
+            j = i
+            while j < len(parts) and not st.eq(off, hi):
+                off = off + t_len(parts[j])
+                acc.append(parts[j])
+                j += 1
+            if st.eq(off, hi):
+                return mk_concat(acc)
+    return ("slice", x, lo, hi)
 
 
 def list_from_values(I, st, vals):
     parts = []
     for v in vals:
-        parts.append(("single", as_key(v)))
+        if isinstance(v, VNat):
+            parts.append(("fill", v.p, Poly.const(1)))
+        else:
+            parts.append(("single", freeze(v)))
     return VSeq(mk_concat(parts))
 
 
-def as_key(v):
-    if isinstance(v, VNat):
-        return v.p
-    return repr(v)
-
-
 def iter_elements(I, st, fr, e, itv):
-    """States/element values for one arbitrary iteration over itv."""
     seq = as_list(I, st, fr, e, itv)
     return [(st, seq_elem(I, st, seq, None))]
 
 
-def summarise_for(I, st, fr, e, itv, pat, body, roots):
-    return None
+# ---------------------------------------------------------------------------------------------
+# recognising element-wise results
+
+def _is_ph(a):
+    return isinstance(a, tuple) and a and a[0] in ("elem", "enumidx", "el")
+
+
+BINDERS = {"flat", "lens", "flatlen", "lmap", "emap", "filtermap", "Fsizes", "Fmap", "sum"}
+
+
+def _mentions_ph(x):
+    if isinstance(x, tuple):
+        if _is_ph(x):
+            return True
+        if x and x[0] in BINDERS:
+            return False       # placeholders below a binder are bound there
+        return any(_mentions_ph(y) for y in x)
+    if isinstance(x, Poly):
+        return any(_mentions_ph(a) for a in x.atoms())
+    return False
+
+
+def _ph_atoms(p):
+    return [a for a in p.atoms() if _mentions_ph(a)]
+
+
+def lift_map(I, st, T, r):
+    """The sequence whose arbitrary element is r, where r was computed from the arbitrary
+    element of T (placeholders ('elem', X) / ('el', L, f))."""
+    r = deref(I, st, r)
+    if isinstance(r, VNat):
+        at = _ph_atoms(r.p)
+        if not at:
+            return ("fill", r.p, t_len(T))
+        if len(at) == 1 and at[0][0] == "elem":
+            X = at[0][1]
+            d = r.p - Poly.atom(at[0])
+            if not _ph_atoms(d):
+                base = mk_gather(st, X[1], X[2]) if X[0] == "gather" else X
+                return mk_shift(d, base)
+        if len(at) == 1 and at[0][0] == "enumidx" and r.p == Poly.atom(at[0]):
+            return mk_arange(0, t_len(T))
+        if len(at) == 1 and at[0][0] == "len" and r.p == Poly.atom(at[0]):
+            # the length of a per-element sequence: sizes of the flattening
+            return ("lens", T, at[0][1])
+        return ("emap", T, r.p)
+    if isinstance(r, VUser) and isinstance(r.key, tuple) and r.key and r.key[0] == "elem":
+        X = r.key[1]
+        if X[0] == "gather":
+            return mk_gather(st, X[1], X[2])
+        return X
+    if isinstance(r, VUser):
+        return ("fill", Poly.atom(("lbl", r.key)), t_len(T))
+    return ("lmap", T, freeze(r))
 
 
 # ---------------------------------------------------------------------------------------------
@@ -188,10 +417,27 @@ def h_collect(I, st, fr, e, c, a):
 
 
 def h_into_iter(I, st, fr, e, c, a):
-    v = deref(I, st, a[0])
+    v = a[0]
+    if isinstance(v, VMutRef):
+        inner = deref(I, st, v)
+        if isinstance(inner, VSeq):
+            return [(st, v, None)]      # iteration by mutable reference: keep the place
+    v = deref(I, st, v)
     if isinstance(v, VRec) and v.ty == inv.IC:
         return [(st, as_list(I, st, fr, e, v), None)]
     return [(st, v, None)]
+
+
+def h_iter_mut(I, st, fr, e, c, a):
+    return [(st, a[0], None)]       # VMutRef to the sequence place
+
+
+def apply_closure_once(I, st, fr, e, f, args):
+    outs = I.apply_value(f, args, st, fr, e)
+    normal = [(s2, v) for (s2, v, cc) in outs if cc is None]
+    if len(normal) != 1 or len(outs) != 1:
+        raise NotImplementedError("element closure with %d outcomes" % len(outs))
+    return normal[0]
 
 
 def h_iter_map(I, st, fr, e, c, a):
@@ -199,38 +445,132 @@ def h_iter_map(I, st, fr, e, c, a):
     f = a[1]
     if seq.t == EMPTY:
         return [(st, seq, None)]
+    if isinstance(f, VFn) and f.kind == "ctor" and f.callee and f.callee["name"] in ("NodeId", "EdgeId", "Some"):
+        if f.callee["name"] == "Some":
+            return [(st, VSeq(("lmap", seq.t, freeze(some(seq_elem(I, st, seq, None))))), None)]
+        return [(st, seq, None)]
+    ex = explicit_elems(seq.t)
+    if ex is not None:
+        states = [(st, [])]
+        for x in ex:
+            nxt = []
+            for (s1, acc) in states:
+                for (s2, r, cc) in I.apply_value(f, [x], s1, fr, e):
+                    if cc is None:
+                        nxt.append((s2, acc + [r]))
+            states = nxt
+        return [(s1, list_from_values(I, s1, acc), None) for (s1, acc) in states]
     tpl = template_of(I, seq.t)
-    s = st.copy()
-    elem = seq_elem(I, s, seq, None)
-    outs = I.apply_value(f, [elem], s, fr, e)
-    normal = [(s2, v) for (s2, v, cc) in outs if cc is None]
-    if len(normal) != 1:
-        raise NotImplementedError("map closure with %d outcomes" % len(normal))
-    s2, r = normal[0]
-    if isinstance(r, VNat):
-        # element-wise scalar map
-        base = Poly.atom(("elem", seq.t))
-        d = r.p - base
-        if base not in [Poly.atom(x) for x in d.atoms()] and not any(("elem", seq.t) == x for x in d.atoms()):
-            return [(st, VSeq(mk_shift(d, seq.t)), None)]
-        if not r.p.atoms() & {("elem", seq.t)}:
-            return [(st, VSeq(("fill", r.p, t_len(seq.t))), None)]
-        term = ("emap", seq.t, r.p)
+    if tpl is not None:
+        s = st.copy()
+        elem = seq_elem(I, s, seq, None)
+        s2, r = apply_closure_once(I, s, fr, e, f, [elem])
+        key = ("map", seq.t, fkey_of(f))
+        term = ("list", key)
+        new_facts = s2.lin.facts[len(st.lin.facts):]
+        templates(I)[term] = {"elem": r, "facts": list(new_facts),
+                              "bnd": {k: v for k, v in s2.bnd.items() if k not in st.bnd}}
+        st.add_eq(t_len(term) - t_len(seq.t))
         return [(st, VSeq(term), None)]
-    key = ("map", seq.t, id(f.node) if isinstance(f, VClosure) else repr(f))
-    term = ("list", key)
-    new_facts = s2.lin.facts[len(st.lin.facts):]
-    templates(I)[term] = {"elem": r, "facts": list(new_facts),
-                          "bnd": {k: v for k, v in s2.bnd.items() if k not in st.bnd}}
-    st.add_eq(t_len(term) - t_len(seq.t))
-    return [(st, VSeq(term), None)]
+    if closure_has_effects(I, f):
+        return effectful_map(I, st, fr, e, seq, f)
+    elem = seq_elem(I, st, seq, None)
+    try:
+        s2, r = apply_closure_once(I, st, fr, e, f, [elem])
+    except Exception as ex:
+        raise type(ex)(str(ex) + " [map over " + show_term(seq.t)[:200] + "]")
+    return [(s2, VSeq(lift_map(I, s2, seq.t, r)), None)]
+
+
+def closure_has_effects(I, f):
+    if not isinstance(f, VClosure):
+        return False
+    import loops
+    return bool(loops.modified_roots(I, [f.node["body"]], f.frame))
+
+
+def effectful_map(I, st, fr, e, seq, f):
+    """`.map(|t| self.new_node(t))`: a loop that appends to outer sequences and yields a value
+    per element.  Summarised exactly like an append-only for-loop, with the yielded values
+    collected into a fresh result sequence."""
+    import loops
+    roots = loops.modified_roots(I, [f.node["body"]], f.frame)
+    result_key = (f.frame.id, ("mapresult", id(e)))
+    st.env[result_key] = VSeq(EMPTY)
+
+    def run_body(s, elem):
+        outs = I.apply_value(f, [elem], s, fr, e)
+        res = []
+        for (s2, v, cc) in outs:
+            if cc is None:
+                cur = s2.env[result_key]
+                v = deref(I, s2, v)
+                item = ("fill", v.p, Poly.const(1)) if isinstance(v, VNat) else ("single", freeze(v))
+                s2.env[result_key] = VSeq(mk_concat([cur.t, item]))
+            res.append((s2, UNIT, cc))
+        return res
+    out = append_loop(I, st, f.frame, e, seq, None, None, set(roots) | {("mapresult", id(e))}, run_body)
+    if out is None:
+        raise NotImplementedError("effectful map closure not in append-only form")
+    res = []
+    for (s2, v, cc) in out:
+        res.append((s2, s2.env[result_key], cc))
+    return res
+
+
+def fkey_of(f):
+    if isinstance(f, VClosure):
+        return ("closure", f.node.get("sp"))
+    return repr(f)[:60]
+
+
+def h_chain(I, st, fr, e, c, a):
+    x = as_list(I, st, fr, e, a[0])
+    y = as_list(I, st, fr, e, a[1])
+    return [(st, VSeq(mk_concat([x.t, y.t])), None)]
+
+
+def h_zip(I, st, fr, e, c, a):
+    x = as_list(I, st, fr, e, a[0])
+    y = as_list(I, st, fr, e, a[1])
+    if x.t == EMPTY or y.t == EMPTY:
+        return [(st, VSeq(EMPTY), None)]
+    z = ("zip", x.t, y.t)
+    if st.eq(t_len(x.t), t_len(y.t)):
+        st.add_eq(t_len(z) - t_len(x.t))
+    else:
+        st.add_ge(t_len(x.t) - t_len(z))
+        st.add_ge(t_len(y.t) - t_len(z))
+    return [(st, VSeq(z), None)]
+
+
+def h_enumerate(I, st, fr, e, c, a):
+    x = as_list(I, st, fr, e, a[0])
+    return [(st, VSeq(("enum", x.t)), None)]
+
+
+def h_seq_identity(I, st, fr, e, c, a):
+    return [(st, as_list(I, st, fr, e, a[0]), None)]
 
 
 def h_vec_len(I, st, fr, e, c, a):
     v = deref(I, st, a[0])
     if isinstance(v, VSeq):
-        return [(st, VNat(t_len(v.t)), None)]
+        return [(st, VNat(seq_len(st, v.t)), None)]
+    if isinstance(v, VRec):
+        nxt = crate_iterator_next(I, v)
+        if nxt is not None:
+            for p, f in I.facts.fns.items():
+                if f["name"] == "len" and f.get("impl_trait") == "std::iter::ExactSizeIterator" \
+                        and f.get("impl_self", "").split("<")[0] == v.ty:
+                    return I.call_fn(f, [a[0]], st, fr, e)
     return [(st, VTop("len"), None)]
+
+
+def seq_len(st, t):
+    if t[0] == "zip" and st.eq(t_len(t[1]), t_len(t[2])):
+        return t_len(t[1])
+    return t_len(t)
 
 
 def h_is_empty(I, st, fr, e, c, a):
@@ -240,24 +580,513 @@ def h_is_empty(I, st, fr, e, c, a):
     return [(st, VBool(("unk", ("is_empty", e["sp"]))), None)]
 
 
-def h_seq_identity(I, st, fr, e, c, a):
-    return [(st, as_list(I, st, fr, e, a[0]), None)]
+def h_vec_new(I, st, fr, e, c, a):
+    return [(st, VSeq(EMPTY), None)]
+
+
+def h_from_elem(I, st, fr, e, c, a):
+    v, n = a
+    if isinstance(v, VNat) and isinstance(n, VNat):
+        return [(st, VSeq(("fill", v.p, n.p)), None)]
+    if isinstance(n, VNat):
+        return [(st, VSeq(("fill", Poly.atom(("val", repr(v)[:40])), n.p)), None)]
+    return [(st, VTop("from_elem"), None)]
+
+
+def place_of(I, st, v):
+    if not isinstance(v, VMutRef):
+        raise NotImplementedError("expected &mut place, got " + repr(v)[:60])
+    place = v.place
+    cur = I.read_place(st, place)
+    while isinstance(cur, VMutRef):
+        place = cur.place
+        cur = I.read_place(st, place)
+    return place, cur
+
+
+def h_push(I, st, fr, e, c, a):
+    place, cur = place_of(I, st, a[0])
+    if not isinstance(cur, VSeq):
+        raise NotImplementedError("push on " + repr(cur)[:40])
+    x = deref(I, st, a[1])
+    item = ("fill", x.p, Poly.const(1)) if isinstance(x, VNat) else ("single", freeze(x))
+    I.write_place(st, place, VSeq(mk_concat([cur.t, item])))
+    return [(st, UNIT, None)]
+
+
+def h_extend(I, st, fr, e, c, a):
+    place, cur = place_of(I, st, a[0])
+    y = as_list(I, st, fr, e, a[1])
+    I.write_place(st, place, VSeq(mk_concat([cur.t, y.t])))
+    return [(st, UNIT, None)]
+
+
+def h_truncate(I, st, fr, e, c, a):
+    place, cur = place_of(I, st, a[0])
+    n = a[1].p
+    if st.ge(t_len(cur.t), n):
+        I.write_place(st, place, VSeq(mk_slice(st, cur.t, Poly.const(0), n)))
+    else:
+        I.write_place(st, place, VSeq(("truncate", cur.t, n)))
+    return [(st, UNIT, None)]
+
+
+def h_take(I, st, fr, e, c, a):
+    place, cur = place_of(I, st, a[0])
+    I.write_place(st, place, VSeq(EMPTY) if isinstance(cur, VSeq) else VTop("taken"))
+    return [(st, cur, None)]
+
+
+def h_drain(I, st, fr, e, c, a):
+    place, cur = place_of(I, st, a[0])
+    I.write_place(st, place, VSeq(EMPTY))
+    return [(st, cur, None)]
+
+
+def h_for_each(I, st, fr, e, c, a):
+    recv, f = a
+    if isinstance(recv, VMutRef):
+        place, cur = place_of(I, st, recv)
+        if isinstance(cur, VSeq):
+            if cur.t == EMPTY:
+                return [(st, UNIT, None)]
+            slot = (fr.id, ("elemslot", id(e)))
+            st.env[slot] = seq_elem(I, st, cur, None)
+            s2, r = apply_closure_once(I, st, fr, e, f, [VMutRef((slot, ()))])
+            newv = s2.env[slot]
+            I.write_place(s2, place, VSeq(lift_map(I, s2, cur.t, newv)))
+            return [(s2, UNIT, None)]
+    seq = as_list(I, st, fr, e, recv)
+    if seq.t == EMPTY:
+        return [(st, UNIT, None)]
+    s2, r = apply_closure_once(I, st, fr, e, f, [seq_elem(I, st, seq, None)])
+    return [(s2, UNIT, None)]
+
+
+def h_filter_map(I, st, fr, e, c, a):
+    seq = as_list(I, st, fr, e, a[0])
+    return [(st, VSeq(filter_map_term(I, st, fr, e, seq, a[1])), None)]
+
+
+def filter_map_term(I, st, fr, e, seq, f):
+    """filter_map(|x| m[x.0].map(NodeId)) and friends: a subsequence of mapped elements; the term
+    records the source sequence and the partial map used (the Some-valued element terms)."""
+    if seq.t == EMPTY:
+        return EMPTY
+    s = st.copy()
+    elem = seq_elem(I, s, seq, None)
+    outs = I.apply_value(f, [elem], s, fr, e)
+    somes = []
+    for (s2, v, cc) in outs:
+        if isinstance(v, VEnum) and v.variant == "Some":
+            somes.append(freeze(v.payload[0]))
+        elif isinstance(v, (VUser, VTop)):
+            somes.append(freeze(v))
+    t = ("filtermap", seq.t, tuple(somes))
+    st.add_ge(t_len(seq.t) - t_len(t))
+    return t
+
+
+def h_flat_map(I, st, fr, e, c, a):
+    seq = as_list(I, st, fr, e, a[0])
+    f = a[1]
+    if seq.t == EMPTY:
+        return [(st, seq, None)]
+    elem = seq_elem(I, st, seq, None)
+    s2, r = apply_closure_once(I, st, fr, e, f, [elem])
+    r = as_list(I, s2, fr, e, r)
+    return [(s2, VSeq(("flat", seq.t, r.t)), None)]
+
+
+def h_sum(I, st, fr, e, c, a):
+    seq = as_list(I, st, fr, e, a[0])
+    return [(st, VNat(t_sum(seq.t)), None)]
+
+
+def h_all(I, st, fr, e, c, a):
+    seq = as_list(I, st, fr, e, a[0])
+    return [(st, VBool(("unk", ("all", show_term(seq.t)[:80], fkey_of(a[1])))), None)]
+
+
+def h_first(I, st, fr, e, c, a):
+    v = deref(I, st, a[0])
+    out = []
+    for s in I.assume(st.copy(), ("cmp", "eq", t_len(v.t))):
+        out.append((s, NONE, None))
+    for s in I.assume(st.copy(), ("cmp", "ge", t_len(v.t) - 1)):
+        out.append((s, some(seq_elem(I, s, v, Poly.const(0))), None))
+    return out
+
+
+def h_next(I, st, fr, e, c, a):
+    recv = a[0]
+    if isinstance(recv, VMutRef):
+        place, cur = place_of(I, st, recv)
+        if isinstance(cur, VSeq):
+            out = []
+            for s in I.assume(st.copy(), ("cmp", "eq", t_len(cur.t))):
+                out.append((s, NONE, None))
+            for s in I.assume(st.copy(), ("cmp", "ge", t_len(cur.t) - 1)):
+                first = seq_elem(I, s, cur, Poly.const(0))
+                I.write_place(s, place, VSeq(mk_slice(s, cur.t, Poly.const(1), t_len(cur.t))))
+                out.append((s, some(first), None))
+            return out
+        nxt = crate_iterator_next(I, cur)
+        if nxt is not None:
+            return I.call_fn(nxt, [recv], st, fr, e)
+    raise NotImplementedError("Iterator::next on " + repr(recv)[:60])
+
+
+def h_once(I, st, fr, e, c, a):
+    x = deref(I, st, a[0])
+    if isinstance(x, VNat):
+        return [(st, VSeq(("fill", x.p, Poly.const(1))), None)]
+    if isinstance(x, VUser):
+        return [(st, VSeq(("fill", Poly.atom(("lbl", x.key)), Poly.const(1))), None)]
+    return [(st, VSeq(("single", freeze(x))), None)]
+
+
+def h_index(I, st, fr, e, c, a):
+    return index_expr(I, st, fr, e, a[0], a[1])
+
+
+def h_index_mut(I, st, fr, e, c, a):
+    recv = a[0]
+    ix = deref(I, st, a[1])
+    if isinstance(recv, VMutRef) and isinstance(ix, VNat):
+        place, cur = place_of(I, st, recv)
+        if isinstance(cur, VSeq):
+            I.pre_ge(st, fr, e, "index_mut", t_len(cur.t), ix.p + 1, f"{show_poly(ix.p)} < len({show_term(cur.t)})")
+        return [(st, VMutRef((place[0], place[1] + (("idx", ix.p),))), None)]
+    raise NotImplementedError("index_mut")
+
+
+def h_first_arg(I, st, fr, e, c, a):
+    return [(st, a[0], None)]
+
+
+HEAP_COUNTER = [0]
+
+
+def h_refcell_new(I, st, fr, e, c, a):
+    HEAP_COUNTER[0] += 1
+    root = ("heap", "cell", fr.fn["path"] if fr.fn else "?", HEAP_COUNTER[0])
+    st.env[root] = deref(I, st, a[0])
+    return [(st, VMutRef((root, ())), None)]
+
+
+def h_borrow_mut(I, st, fr, e, c, a):
+    v = a[0]
+    if isinstance(v, VMutRef):
+        return [(st, v, None)]
+    raise NotImplementedError("borrow_mut on " + repr(v)[:60])
+
+
+def h_into_inner(I, st, fr, e, c, a):
+    return [(st, deref(I, st, a[0]), None)]
+
+
+def h_try_unwrap(I, st, fr, e, c, a):
+    # Ok(cell) when this is the only handle, Err(handle) otherwise: both are possible
+    s2 = st.copy()
+    return [(st, ok(a[0]), None), (s2, err(a[0]), None)]
+
+
+def h_second_arg(I, st, fr, e, c, a):
+    return [(st, a[1], None)]
+
+
+def h_unit(I, st, fr, e, c, a):
+    return [(st, UNIT, None)]
 
 
 TABLE = {
     "std::iter::Iterator::collect": h_collect,
     "std::iter::IntoIterator::into_iter": h_into_iter,
     "std::iter::Iterator::map": h_iter_map,
+    "std::iter::Iterator::chain": h_chain,
+    "std::iter::Iterator::zip": h_zip,
+    "std::iter::Iterator::enumerate": h_enumerate,
+    "std::iter::Iterator::filter_map": h_filter_map,
+    "std::iter::Iterator::flat_map": h_flat_map,
+    "std::iter::Iterator::for_each": h_for_each,
+    "std::iter::Iterator::sum": h_sum,
+    "std::iter::Iterator::all": h_all,
+    "std::iter::Iterator::next": h_next,
+    "std::iter::once": h_once,
     "std::vec::Vec::<T, A>::len": h_vec_len,
     "core::slice::<impl [T]>::len": h_vec_len,
+    "std::iter::ExactSizeIterator::len": h_vec_len,
     "std::vec::Vec::<T, A>::is_empty": h_is_empty,
     "core::slice::<impl [T]>::is_empty": h_is_empty,
     "core::slice::<impl [T]>::iter": h_seq_identity,
+    "core::slice::<impl [T]>::iter_mut": h_iter_mut,
+    "core::slice::<impl [T]>::first": h_first,
     "std::iter::Iterator::cloned": h_seq_identity,
     "std::iter::Iterator::copied": h_seq_identity,
     "std::slice::<impl [T]>::to_vec": h_seq_identity,
+    "std::vec::Vec::<T>::new": h_vec_new,
+    "std::vec::Vec::<T>::with_capacity": h_vec_new,
+    "std::vec::from_elem": h_from_elem,
+    "std::vec::Vec::<T, A>::push": h_push,
+    "std::iter::Extend::extend": h_extend,
+    "std::vec::Vec::<T, A>::truncate": h_truncate,
+    "std::vec::Vec::<T, A>::drain": h_drain,
+    "std::mem::take": h_take,
+    "std::ops::Index::index": h_index,
+    "std::ops::IndexMut::index_mut": h_index_mut,
+    "std::boxed::Box::<T>::new": h_first_arg,
+    "std::rc::Rc::<T>::new": h_first_arg,
+    "std::cell::RefCell::<T>::new": h_refcell_new,
+    "std::cell::RefCell::<T>::borrow_mut": h_borrow_mut,
+    "std::cell::RefCell::<T>::into_inner": h_into_inner,
+    "std::rc::Rc::<T, A>::try_unwrap": h_try_unwrap,
+    "std::boxed::Box::<T>::new_uninit": h_unit,
+    "alloc::intrinsics::write_box_via_move": h_second_arg,
+    "std::boxed::box_assume_init_into_vec_unsafe": h_first_arg,
 }
 
 
+# ---------------------------------------------------------------------------------------------
+# for-loop summaries
+
+def summarise_for(I, st, fr, e, itv, pat, body, roots):
+    """Exact summaries for two loop idioms (anything else falls back to invariant inference):
+      (a) in-place element update: `for x in &mut seq { ...writes through x only... }`
+      (b) append-only loops: every modified sequence place P ends one iteration as concat(P, X)
+          with X independent of the prefix."""
+    if isinstance(itv, VMutRef):
+        place, cur = place_of(I, st, itv)
+        if isinstance(cur, VSeq):
+            if cur.t == EMPTY:
+                return [(st, UNIT, None)]
+            outer = {r for r in roots if (fr.id, r) in st.env and not _is_pattern_local(pat, r)}
+            if outer:
+                return None
+            slot = (fr.id, ("elemslot", id(e)))
+            st.env[slot] = seq_elem(I, st, cur, None)
+            m, u = I.match_pat(pat, VMutRef((slot, ())), st, fr)
+            if len(m) != 1:
+                return None
+            outs = I.ev(body, m[0], fr)
+            if len(outs) != 1 or outs[0][2] is not None:
+                return None
+            s2 = outs[0][0]
+            newv = s2.env[slot]
+            I.write_place(s2, place, VSeq(lift_map(I, s2, cur.t, newv)))
+            return [(s2, UNIT, None)]
+        return None
+    seq = as_list(I, st, fr, e, itv)
+    if seq.t == EMPTY:
+        return [(st, UNIT, None)]
+    ex = explicit_elems(seq.t)
+    if ex is not None:
+        # an explicitly enumerated list: unroll
+        states = [st]
+        out = []
+        for x in ex:
+            nxt = []
+            for s1 in states:
+                m, u = I.match_pat(pat, x, s1, fr)
+                for s2 in m:
+                    for (s3, v, cc) in I.ev(body, s2, fr):
+                        if cc in (None, "continue"):
+                            nxt.append(s3)
+                        elif cc == "break":
+                            out.append((s3, UNIT, None))
+                        else:
+                            out.append((s3, v, cc))
+            states = nxt
+        return out + [(s1, UNIT, None) for s1 in states]
+
+    def run_body(s, elem):
+        m, u = I.match_pat(pat, elem, s, fr)
+        if len(m) != 1:
+            raise NotImplementedError("loop pattern")
+        return I.ev(body, m[0], fr)
+    return append_loop(I, st, fr, e, seq, pat, body, roots, run_body)
+
+
+def _is_pattern_local(pat, r):
+    if pat is None:
+        return False
+    found = [False]
+
+    def go(p):
+        if isinstance(p, dict):
+            if p.get("k") == "bind" and p.get("id") == r:
+                found[0] = True
+            for v in p.values():
+                if isinstance(v, (dict, list)):
+                    go(v)
+        elif isinstance(p, list):
+            for x in p:
+                go(x)
+    go(pat)
+    return found[0]
+
+
+def seq_leaves(v, path=()):
+    out = []
+    if isinstance(v, VSeq):
+        out.append((path, v))
+    elif isinstance(v, VRec):
+        for k, x in v.f.items():
+            out += seq_leaves(x, path + (k,))
+    elif isinstance(v, VTup):
+        for i, x in enumerate(v.items):
+            out += seq_leaves(x, path + (str(i),))
+    return out
+
+
+def nat_leaves(v, path=()):
+    out = []
+    if isinstance(v, VNat):
+        out.append((path, v))
+    elif isinstance(v, VRec):
+        for k, x in v.f.items():
+            out += nat_leaves(x, path + (k,))
+    elif isinstance(v, VTup):
+        for i, x in enumerate(v.items):
+            out += nat_leaves(x, path + (str(i),))
+    return out
+
+
+def mentions(t, leaves):
+    if isinstance(t, tuple):
+        if t in leaves:
+            return True
+        return any(mentions(x, leaves) for x in t)
+    if isinstance(t, Poly):
+        return any(mentions(a, leaves) for a in t.atoms())
+    return False
+
+
+def append_loop(I, st, fr, e, seq, pat, body, roots, run_body):
+    import loops
+    entry = {}
+    for r in sorted(roots, key=repr):
+        key = (fr.id, r)
+        if key not in st.env or _is_pattern_local(pat, r):
+            continue
+        v = st.env[key]
+        place = (key, ())
+        while isinstance(v, VMutRef):
+            place = v.place
+            v = I.read_place(st, place)
+        entry[r] = (place, v)
+    if not entry:
+        return None
+    head = st.copy()
+    prefix = {}
+    names = loops.local_names(fr.fn) if fr.fn else {}
+    fr.loop_ix += 1
+    lname = (fr.fn["path"] if fr.fn else "?", "loop%d" % fr.loop_ix)
+    for r, (place, v) in entry.items():
+        nv = v
+        for path, leafv in seq_leaves(v):
+            P = leaf(("prefix",) + lname + (str(names.get(r, r)),) + path)
+            prefix[(r, path)] = (P, leafv.t)
+            # the prefix is the entry value followed by what earlier iterations appended: its
+            # length is at least the entry length; its element bounds are those of the entry value
+            head.add_ge(t_len(P) - t_len(leafv.t))
+            if label_of(leafv.t):
+                LABEL_LEAVES.add(P)
+            nv = _set_path(nv, path, VSeq(P))
+        I.write_place(head, place, nv)
+    n_ob = len(I.obligations)
+    saved = (dict(I.unmodelled), dict(I.lemma_uses), dict(I.assumptions), fr.loop_ix)
+
+    def abort():
+        del I.obligations[n_ob:]
+        I.unmodelled, I.lemma_uses, I.assumptions = saved[0], saved[1], saved[2]
+        fr.loop_ix = saved[3] - 1
+        return None
+    try:
+        elem = seq_elem(I, head, seq, None)
+        outs = run_body(head, elem)
+    except (NotImplementedError, TypeError, KeyError):
+        return abort()
+    if len(outs) != 1 or outs[0][2] is not None:
+        return abort()
+    s2 = outs[0][0]
+    all_prefix = {P for (P, _) in prefix.values()}
+    updates = []
+    for r, (place, v) in entry.items():
+        endv = I.read_place(s2, place)
+        for path, nv in nat_leaves(v):
+            ev = loops.get_path(endv, path)
+            if not (isinstance(ev, VNat) and s2.eq(ev.p, nv.p)):
+                return abort()
+        for path, leafv in seq_leaves(v):
+            P, t0 = prefix[(r, path)]
+            ev = loops.get_path(endv, path)
+            if not isinstance(ev, VSeq):
+                return abort()
+            t = ev.t
+            if t == P:
+                updates.append((place, path, t0, None, P))
+                continue
+            parts = list(t[1:]) if t[0] == "concat" else [t]
+            if parts[0] != P:
+                return abort()
+            updates.append((place, path, t0, parts[1:], P))
+    # appended items may mention the *length* of a prefix (fresh ids: `let i = v.len(); v.push(x); i`)
+    # through len(P) = len(entry) + (number of earlier iterations) * (items per iteration)
+    res = s2
+    per_iter = {}
+    for (place, path, t0, added, P) in updates:
+        k = Poly.const(0)
+        for x in (added or []):
+            k = k + t_len(x)
+        per_iter[P] = (t0, k)
+    for (place, path, t0, added, P) in updates:
+        cur = I.read_place(res, place)
+        if added is None:
+            newt = t0
+        else:
+            lifted = []
+            for x in added:
+                y = lift_added(I, res, seq.t, x, per_iter)
+                if y is None or mentions(y, all_prefix):
+                    return abort()
+                lifted.append(y)
+            newt = mk_concat([t0] + lifted)
+        I.write_place(res, place, _set_path(cur, path, VSeq(newt)))
+    return [(res, UNIT, None)]
+
+
+def _set_path(v, path, newv):
+    if not path:
+        return newv
+    if isinstance(v, VRec):
+        return v.with_field(path[0], _set_path(v.f[path[0]], path[1:], newv))
+    if isinstance(v, VTup):
+        items = list(v.items)
+        items[int(path[0])] = _set_path(items[int(path[0])], path[1:], newv)
+        return VTup(items)
+    raise NotImplementedError("set_path")
+
+
+def lift_added(I, st, S, x, per_iter):
+    """What one iteration appended (x, over the placeholders of S), collected over all iterations."""
+    if x[0] == "single":
+        return lift_map(I, st, S, thaw(x[1]))
+    if x[0] == "fill" and st.eq(x[2], 1):
+        p = as_poly(x[1])
+        # fresh identifiers: value = len(prefix P) with one item appended to P per iteration
+        for P, (t0, k) in per_iter.items():
+            lp = Poly.atom(("len", P))
+            if p == lp and st.eq(k, 1):
+                return mk_arange(t_len(t0), t_len(t0) + t_len(S))
+        return lift_map(I, st, S, VNat(p))
+    if mentions(x, {("elem", S)}) or mentions(x, {S}) or True:
+        return ("flat", S, x)
+
+
+# ---------------------------------------------------------------------------------------------
+# contracts of the lax user traits
+
 def user_contract(I, callee, vals):
-    return None
+    import contracts_lax
+    return contracts_lax.lookup(I, callee, vals)
